@@ -14,8 +14,8 @@ import (
 )
 
 func init() {
-	register("C07", "Decides the structural basis of 'every committed write reaches every live query it affects' in livesql: the dependency is registered (tracker + reactive) before the query is executed, on every path, inside the cached computation; registerDependency always adds to the tracker and to the reactive graph and its cleanup removes it; processBinlog tests every registered resource under the tracker lock and invalidates on a match, no update (whatever it carries) returns before that loop, and the consumer goroutine of RunPollLoop hands every received update to it; shouldInvalidate consults both the before and the after image of every delta and invalidates on update.err; an undecodable rows event is turned into an update carrying the table and the error and is delivered (update.err has a writer; no path from a decode error other than 'unknown table' / 'database closed' skips the send); the event-kind table covers WRITE/UPDATE/DELETE v1+v2 with after-only / both / before-only deltas, update rows paired (i, i+1) behind the even-length test; binlog rows are decoded with the column pairing of C13 and only when their column count equals the expected one exactly and column maps are dropped when the table id changes; Tester.Test compares every filter column. RunPollLoop's decision table (rows events delivered, skipped or turned into update{table, err}; a table-map event with an unseen table or a changed id drops the column map on every path) is evaluated under every assignment of its predicates. Not decided: agreement of the in-memory tester with SQL WHERE for every type and value, binlog delivery/ordering, MySQL itself.", c07)
-	register("C10", "Decides structural conditions of batched-select transparency in sqlgen: in the batch function both the filters and the fetched rows are normalised with the column Valuer (the same normaliser makeWhere and the row tester use) before building the statement and before matching; result i belongs to item i (matcher ids are the induction index of the items, results indexed by the id returned by match, one output per item in order); makeBatchQuery contributes one tuple per filter with placeholders and arguments in lock step, extracted with the group's own column list, with the documented match-all short-circuit for an empty filter; batching is used only without options, outside a transaction and with batching on the context, after the limit check, sharded by table; makeBatchQuery's clause renderer emits exactly the IN / IS / AND fragments and arguments under every (value nil, values written, nil seen) assignment; the row matcher files filters and looks rows up under the same key derivation and probes every group. Not decided: equality of returned rows for all table contents, MySQL collation and coercion.", c10)
+	register("C07", "Decides the structural basis of 'every committed write reaches every live query it affects' in livesql: the dependency is registered (tracker + reactive) before the query is executed, on every path, inside the cached computation; registerDependency always adds to the tracker and to the reactive graph and its cleanup removes it; processBinlog tests every registered resource under the tracker lock and invalidates on a match, no update (whatever it carries) returns before that loop, and the consumer goroutine of RunPollLoop hands every received update to it; shouldInvalidate consults both the before and the after image of every delta and invalidates on update.err; an undecodable rows event is turned into an update carrying the table and the error and is delivered (update.err has a writer; no path from a decode error other than 'unknown table' / 'database closed' skips the send); the event-kind table covers WRITE/UPDATE/DELETE v1+v2 with after-only / both / before-only deltas, update rows paired (i, i+1) behind the even-length test; binlog rows are decoded with the column pairing of C13 and only when their column count equals the expected one exactly and column maps are dropped when the table id changes; Tester.Test compares every filter column. RunPollLoop's decision table (rows events delivered, skipped or turned into update{table, err}; a table-map event with an unseen table or a changed id drops the column map on every path) is evaluated under every assignment of its predicates; the loop over an UPDATE event's images starts at 0, advances by 2 and runs to len(Rows). Not decided: agreement of the in-memory tester with SQL WHERE for every type and value, binlog delivery/ordering, MySQL itself.", c07)
+	register("C10", "Decides structural conditions of batched-select transparency in sqlgen: in the batch function both the filters and the fetched rows are normalised with the column Valuer (the same normaliser makeWhere and the row tester use) before building the statement and before matching; result i belongs to item i (matcher ids are the induction index of the items, results indexed by the id returned by match, one output per item in order); makeBatchQuery contributes one tuple per filter with placeholders and arguments in lock step, extracted with the group's own column list, with the documented match-all short-circuit for an empty filter; batching is used only without options, outside a transaction and with batching on the context, after the limit check, sharded by table; makeBatchQuery's clause renderer emits exactly the IN / IS / AND fragments and arguments under every (value nil, values written, nil seen) assignment; the row matcher files filters and looks rows up under the same key derivation and probes every group; with options present the batched path is unreachable (evaluated, not matched). Not decided: equality of returned rows for all table contents, MySQL collation and coercion.", c10)
 }
 
 const lsq = "livesql"
@@ -586,6 +586,43 @@ func c07(c *an.Ctx) {
 			if !okPair {
 				o.FailAt(l.Alloc, "update delta pairs before=%s after=%s, expected rows[i] / rows[i+1]", an.Short(an.Expr(b), 60), an.Short(an.Expr(a), 60))
 			}
+			// the loop over the images: starts at 0, advances by 2, runs while i (or i+1) < len(Rows)
+			if phi, ok := bi.(*ssa.Phi); ok && okPair {
+				init0, step2 := false, false
+				for _, e := range phi.Edges {
+					if n, ok := an.ConstInt(e); ok {
+						init0 = init0 || n == 0
+						continue
+					}
+					if st, ok := e.(*ssa.BinOp); ok && st.Op == token.ADD && st.X == ssa.Value(phi) {
+						if n, ok := an.ConstInt(st.Y); ok && n == 2 {
+							step2 = true
+						}
+					}
+				}
+				okBound := false
+				if iff, ok := phi.Block().Instrs[len(phi.Block().Instrs)-1].(*ssa.If); ok {
+					if cmp, ok := iff.Cond.(*ssa.BinOp); ok {
+						x, y, op := cmp.X, cmp.Y, cmp.Op
+						if op == token.GTR {
+							x, y, op = y, x, token.LSS
+						}
+						isLen := strings.HasPrefix(an.Expr(y), "len(") && strings.Contains(an.Expr(y), ".Rows")
+						plus1 := false
+						if ad, ok := x.(*ssa.BinOp); ok && ad.Op == token.ADD && ad.X == ssa.Value(phi) {
+							if n, ok := an.ConstInt(ad.Y); ok && n == 1 {
+								plus1 = true
+							}
+						}
+						if (op == token.LSS || op == token.NEQ) && isLen && (x == ssa.Value(phi) || (op == token.LSS && plus1)) {
+							okBound = true
+						}
+					}
+				}
+				if len(phi.Edges) != 2 || !init0 || !step2 || !okBound {
+					o.FailAt(l.Alloc, "the loop over an UPDATE event's row images must start at 0, advance by 2 and run while i < len(Rows) (start at 0: %v, step 2: %v, bound: %v): otherwise images are paired across rows, a row's change is dropped, or the poll loop indexes past the end", init0, step2, okBound)
+				}
+			}
 		}
 		okEven := false
 		for _, b := range fn.Blocks {
@@ -1089,6 +1126,30 @@ func c10(c *an.Ctx) {
 			an.BlockSuccessEdges(fn, blk, checks)
 			if an.Reach(fn, nil, blk)[i] {
 				o.FailAt(i, "the batched path is reachable without the limit check having succeeded")
+			}
+			// evaluated, not matched: with options present (whatever they contain) the batched path is unreachable
+			nOpt := 0
+			sim := &an.BoolSim{Fn: fn, Atom: func(v ssa.Value) (bool, bool) {
+				bo, ok := v.(*ssa.BinOp)
+				if !ok || (bo.Op != token.EQL && bo.Op != token.NEQ) {
+					return false, false
+				}
+				x := bo.X
+				if isConstNil(x) {
+					x = bo.Y
+				} else if !isConstNil(bo.Y) {
+					return false, false
+				}
+				if an.IsFieldAccess(x, "BaseSelectQuery", "Options") {
+					nOpt++
+					return bo.Op == token.NEQ, true // Options != nil
+				}
+				return false, false
+			}}
+			if sim.Run()[i.Block()] {
+				o.FailAt(i, "a query that carries options (limit, order, where, locking, index hints) can still take the batched path, which renders none of them: it would be answered with rows it would not have returned on its own")
+			} else if nOpt == 0 {
+				o.FailAt(i, "BaseQuery never tests query.Options before batching")
 			}
 		})
 		if n != 1 {
